@@ -17,17 +17,22 @@ from ..forkpool import prepare_imports, run_cases
 from ..lattice import ORIGIN0 as _O0, EMBEDDINGS, EXACT, OffLattice
 
 # seven origin-0 embeddings plus the small-magnitude one (1e-6 units: FRAME's area tolerance exceeds small overlaps there)
-ORIGIN0 = _O0 + ["micro"]
+ORIGIN0 = _O0 + ["micro", "mega"]
 from .. import tlc
 from .die_common import random_description
 
 
-def build_netlist(emb, mods):
-    """mods: [[kind, [[x1,y1,x2,y2],...]], ...] (micro-units).  Returns the netlist dict; module i is named N<i+1>."""
+def build_netlist(emb, mods, tags=None):
+    """mods: [[kind, [[x1,y1,x2,y2],...]], ...] (micro-units).  Returns the netlist dict; module i is named N<i+1>.
+    tags: {str(i): region name} -- the rectangles of soft module i are written with that region as fifth value (the
+    statement is about covered area whatever region a rectangle of the module is assigned to)"""
     out = {}
+    tags = tags or {}
     for i, (kind, rects) in enumerate(mods):
         name = f"N{i + 1}"
         rl = [emb.rect(r) for r in rects]
+        if kind == "soft" and str(i) in tags:
+            rl = [r + [tags[str(i)]] for r in rl]
         if kind == "softsq":
             x1, y1, x2, y2 = rects[0]
             out[name] = {"area": emb.area((x2 - x1) * (y2 - y1)), "center": [emb.coord((x1 + x2) / 2), emb.coord((y1 + y2) / 2)]}
@@ -72,7 +77,7 @@ def run_case(case):
             if regions:
                 ddict["regions"] = regions
             try:
-                net = Netlist(build_netlist(emb, case["mods"]))
+                net = Netlist(build_netlist(emb, case["mods"], case.get("tags")))
                 for j in case.get("release", []):
                     # a fixed module released through the API before the die is built: it is then an ordinary hard module
                     net.get_module(f"N{j + 1}").is_fixed = False
@@ -155,6 +160,14 @@ def to_case(g, rng, embs=ORIGIN0):
     case = {"dw": g["dw"], "dh": g["dh"], "regs": regs, "mods": mods, "zero": g["zero"], "embs": list(embs)}
     if rng.random() < 0.35:
         case["pre"] = ["split", *rng.choice([(3, 2), (2, 1), (71, 50)]), rng.randint(2, 9)]
+    return case
+
+
+def add_tags(case, rng):
+    """some soft modules get their rectangles assigned to a named region (that of the die's specialised cells, or another)"""
+    tags = {str(i): rng.choice(["R1", "R2", "R2"]) for i, m in enumerate(case["mods"]) if m[0] == "soft" and rng.random() < 0.3}
+    if tags:
+        case["tags"] = tags
     return case
 
 
@@ -259,8 +272,9 @@ def decide(ctx: Ctx, cases):
                      "some_module_touches_no_cell": not all(covers_refinable(c, i) for i in movable)}
             feats["after_move"] = owners[key]["moved"]
             feats["released_fixed"] = bool(c.get("release"))
+            feats["tagged_rectangles"] = bool(c.get("tags"))
             ctx.violation(clause, {**{k: c[k] for k in ("dw", "dh", "regs", "mods", "zero")}, "pre": c.get("pre"),
-                                   "move": c.get("move"), "release": c.get("release"),
+                                   "move": c.get("move"), "release": c.get("release"), "tags": c.get("tags"),
                                    "embeddings": owners[key]["embs"]},
                           {"observed": {k: t[k] for k in ("ok", "refinable", "fixedcells", "obs")}, "why": owners[key]["why"]}, feats)
     for t in list(traces.values())[:2]:
@@ -272,7 +286,7 @@ def run(ctx: Ctx) -> int:
         rec = json.load(open(ctx.replay))["case"]
         case = {k: rec[k] for k in ("dw", "dh", "regs", "mods", "zero")}
         case["embs"] = rec.get("embeddings", ORIGIN0)
-        for k in ("pre", "move", "release"):
+        for k in ("pre", "move", "release", "tags"):
             if rec.get(k):
                 case[k] = rec[k]
         decide(ctx, [case])
@@ -288,8 +302,8 @@ def run(ctx: Ctx) -> int:
     elif len(gen) > 120000:
         rng.shuffle(gen)
         gen = gen[:120000]
-    cases = [to_case(g, rng) for g in gen]
-    cases += [random_case(rng) for _ in range(500 if tier == "quick" else 6000)]
+    cases = [add_tags(to_case(g, rng), rng) for g in gen]
+    cases += [add_tags(random_case(rng), rng) for _ in range(500 if tier == "quick" else 6000)]
     before = len(cases)
     cases = [c for c in cases if in_quantifier(c)]
     ctx.extra["outside_quantifier_dropped"] = before - len(cases)
